@@ -4,7 +4,7 @@ CONSTANTS
   GlobFiles = {"docs/c.md"}
   GlobLic = "0BSD"
   MaxCmds = 2
-  InitPick = "all"
+  InitPick = "few"
 SPECIFICATION Spec
 INVARIANT ComplianceReachable
 INVARIANT DownloadAllExact
@@ -14,4 +14,7 @@ PROPERTY Monotone
 PROPERTY ReadersReadOnly
 PROPERTY ConversionKeepsAttribution
 PROPERTY OnlyConvertMovesGlob
+PROPERTY SiblingsOnlyGrow
+PROPERTY SkipExistingLeavesDeclaringTextsAlone
+INVARIANT LintFileVsLint
 CHECK_DEADLOCK FALSE
